@@ -91,7 +91,7 @@ Init ==
 TRec(p, k)         == [id |-> p, s |-> k, ok |-> TRUE]
 (* the per-cell file of cell c has not been written in this run yet (only stale content, or none) *)
 Fresh(c)           == \A i \in DOMAIN tgt[c][1] : tgt[c][1][i].id = 0
-RRec(p, k, m, nl)  == [id |-> p, s |-> k, ok |-> TRUE, faithful |-> TRUE, reason |-> TRUE, content |-> <<p, m>>, nl |-> nl]
+RRec(p, k, m, nl)  == [id |-> p, s |-> k, ok |-> TRUE, faithful |-> TRUE, reason |-> TRUE, reasonGiven |-> TRUE, content |-> <<p, m>>, nl |-> nl]
 AppendMates(f, r(_)) == [m \in 1 .. 2 |-> IF m <= mates THEN Append(f[m], r(m)) ELSE f[m]]
 
 (* what strategy k does with the current pair: after the rebinding of D102 it is handed strings *)
@@ -178,7 +178,7 @@ Inv_C01_MateSync       == PMateSync(Obs)
 Inv_C01_Order          == POrder(Obs)
 Inv_C01_Counters       == PYields(Obs) /\ (Quiescent => PCounters(Obs))
 Inv_C01_WellFormed     == PWellFormed(Obs)
-Inv_C01_RejectFaithful == PRejectFaithful(Obs)
+Inv_C01_RejectFaithful == PRejectFaithful(Obs) /\ PRejectReasonGiven(Obs)
                           /\ \A m \in 1 .. mates : \A i \in DOMAIN rej[m] : rej[m][i].content = <<rej[m][i].id, m>>
 Inv_Verdict            == Quiescent => PVerdict(Obs) = "ok"      \* the clause chain used on real traces agrees
 
